@@ -383,7 +383,7 @@ func c14statesChild(raw json.RawMessage, scratch string) {
 
 func c14(c *wk.Ctx) {
 	r := c.R
-	r.Rule = "target states built as the incremental sender writes them (hash <checkpoint key> with <source>-runid/-version/-offset) for 1-4 sources whose addresses are prefixes of one another, over databases {0,1,5,15}, with partial (offset without runid, runid without offset), old/absent/newer version fields and data keys; checkpoint.LoadCheckpoint runs against a loopback model target 5x per state (map order); returned (runid, offset, db, error) and the keyspace afterwards are compared with a reference 'newest own checkpoint' function; in multi-source states all sources also load at the same time; writer/reader agreement: multi-database streams with transactions and SELECTs inside them go through the real incremental sender (resume on) into a model target and LoadCheckpoint must then return the run id the sender was given and the position and database of the last forwarded command. distinct = (class, neighbour present, per-db field counts, own source)"
+	r.Rule = "target states built as the incremental sender writes them (hash <checkpoint key> with <source>-runid/-version/-offset) for 1-4 sources whose addresses are prefixes of one another, over databases {0,1,5,15}, with partial (offset without runid, runid without offset), old/absent/newer version fields and data keys; checkpoint.LoadCheckpoint runs against a loopback model target 5x per state (map order); returned (runid, offset, db, error) and the keyspace afterwards are compared with a reference 'newest own checkpoint' function; in multi-source states all sources also load at the same time; writer/reader agreement: multi-database streams with transactions and SELECTs inside them go through the real incremental sender (resume on) into a model target and LoadCheckpoint must then return the run id the sender was given and the position and database of the last forwarded command (every second stream starts in a database that holds the previous run's checkpoint under another run id). distinct = (class, neighbour present, per-db field counts, own source)"
 	onDeath := func(d wk.Death) {
 		if d.Result.TimedOut {
 			r.Inconcl("C14 child watchdog")
